@@ -34,6 +34,7 @@ import PM.Structure2
 import PM.StructEdit
 import PM.SchemaCompile
 import Proofs.DfaRun
+import Proofs.FillOrder
 import Proofs.Fill
 import Proofs.Wrap
 import Proofs.CreateFill
@@ -41,10 +42,8 @@ namespace PM
 
 /-! ## `fill_before` -/
 
-/-- the filler search of the Fitter / planners **is** the search of C15 (by definition since the
-    duplicate `fillSearchO` was removed from PM/FillOrder.lean) -/
-theorem fillBeforeTypes_eq (S : Schema) (d : Dfa) (q : Nat) (after : List TypeId) (toEnd : Bool) :
-    fillBeforeTypes S d q after toEnd = fillBefore d S.generatable q after toEnd := rfl
+-- `fillBeforeTypes_eq` (the filler search of the Fitter / planners **is** the search of C15) is proved in
+-- Proofs/FillOrder.lean, by induction over the fuel.
 
 /-- every type the filler search returns passed the `gen` test (no determinism needed for this half
     of `isFill`) -/
@@ -104,8 +103,7 @@ theorem fillBefore_all_gen (d : Dfa) (gen : TypeId → Bool) (q : Nat) (after : 
   the search ever uses when every edge label is a node type of the schema. -/
 
 /-- the `Active` item a `WrapItem` stands for -/
-def WrapItem.toActive (w : WrapItem) : Active :=
-  { dfaOf := w.ty.getD 0, state := w.state, chain := w.chain, root := w.ty.isNone }
+-- `WrapItem.toActive` is defined in Proofs/FillOrder.lean
 
 theorem WrapItem.toActive_dfa (S : Schema) (root : Dfa) (w : WrapItem) :
     w.toActive.dfa S root = (match w.ty with | none => root | some t => S.dfa t) := by
@@ -359,7 +357,7 @@ theorem createAndFill0_eq (S : Schema) : ∀ (fuel : Nat) (t : TypeId),
   | fuel + 1, t => by
     have ih : S.createAndFill0 fuel = createAndFill S fuel := funext (createAndFill0_eq S fuel)
     rw [Schema.createAndFill0, createAndFill, ih]
-    simp only [fillBeforeTypes, Schema.mkNodeO]
+    simp only [fillBeforeTypes_eq, Schema.mkNodeO]
     rfl
 
 theorem mapM_option_forall' {α β : Type} (f : α → Option β) (P : β → Prop)
@@ -426,7 +424,7 @@ theorem FromDom.createAndFill_toOption (S : Schema) : ∀ (fuel : Nat) (t : Type
     cases hc : computeAttrs (S.nodeType t).attrs [] with
     | error e => rfl
     | ok attrs =>
-      simp only [fillBeforeTypes]
+      simp only [fillBeforeTypes_eq]
       cases hf : fillBefore (S.dfa t) S.generatable 0 [] true with
       | none => rfl
       | some tys =>
@@ -438,7 +436,7 @@ theorem FromDom.createAndFill_toOption (S : Schema) : ∀ (fuel : Nat) (t : Type
 theorem FromDom.fillNodes_toOption (S : Schema) (d : Dfa) (q : Nat) (after : List TypeId) (toEnd : Bool) :
     (FromDom.fillNodes S d q after toEnd).toOption = fillBeforeNodes S d q after toEnd := by
   unfold FromDom.fillNodes fillBeforeNodes
-  simp only [fillBeforeTypes]
+  simp only [fillBeforeTypes_eq]
   cases hf : fillBefore d S.generatable q after toEnd with
   | none => rfl
   | some tys =>
@@ -537,7 +535,7 @@ theorem createAndFill_eq_toOption (S : Schema)
       have hfront : S.fillFront (fun tp => S.createAndFill fuel tp [] [] []) t [] = .ok [] := by
         simp [Schema.fillFront, fsize]
       have hrun : (S.dfa t).run 0 (S.types []) = some 0 := rfl
-      simp only [List.all_nil, Bool.not_true, Bool.false_eq_true, if_false, hfront, hrun, fillBeforeTypes]
+      simp only [List.all_nil, Bool.not_true, Bool.false_eq_true, if_false, hfront, hrun, fillBeforeTypes_eq]
       unfold Schema.fillFragment
       cases hf : fillBefore (S.dfa t) S.generatable 0 [] true with
       | none => rfl
